@@ -280,6 +280,23 @@ def directed_cases():
                             ops = list(first_expire) + [['rekey_ike', rekeyer, 0]] + [['deliver', 0]] * n_del + \
                                   [['expire_any', x, 0, hard, outbound], ['status', x]]
                             out.append({'cfg': {'dh': '19'}, 'third': False, 'pre': est, 'ops': ops})
+    # "added exactly once however often the rekey messages are retransmitted": copies of the rekey request (datagram 4 of these
+    # histories) and of its response (5) arriving again at every later stage, also after the successor has ended
+    D = ['deliver', 0]
+    for r in 'ab':
+        o = 'b' if r == 'a' else 'a'
+        tails = [[['old', 4], ['old', 5], ['old', 4]],
+                 [['tick', 2.5], D, D, ['old', 4], ['old', 5]]]
+        for mid in ([D, D, D, D],                                   # complete rekey
+                    [D, D, ['drop', 0]],                            # the DELETE of the old IKE_SA is lost
+                    [D, ['dup', 0], D, D, D],                       # the response arrives twice
+                    [['dup', 0], D, D, D, D, D],                    # the request arrives twice
+                    [D, ['drop', 0], ['tick', 2.5], D, D, D, D]):   # the response is lost, the request retransmitted
+            for end in ([], [['del_ike', r, 0], D, D], [['del_ike', o, 0], D, D], [['del_ike', r, 0], D, ['drop', 0]]):
+                for tail in tails:
+                    ops = [['rekey_ike', r, 0]] + [list(x) for x in mid] + [list(x) for x in end] + [list(x) for x in tail] + \
+                          [['status', 'a'], ['status', 'b']]
+                    out.append({'cfg': {'dh': '19'}, 'third': False, 'pre': est, 'ops': ops, 'family': 'rekey-retransmissions'})
     return out
 
 
@@ -287,7 +304,7 @@ def directed_worker(chunk):
     st_ = Stats()
     for case in chunk:
         fails = body(case, st_)
-        st_.klass('directed:expire-around-ike-rekey')
+        st_.klass('directed:' + case.get('family', 'expire-around-ike-rekey'))
         for f in fails:
             if common.KNOWN.is_open('C16', f.sig):
                 st_.excluded[f.sig] += 1
